@@ -220,3 +220,89 @@ Theorem order_mixed_json_pinned_refuted :
   compare (fun _ => None) (fun _ => None) TSTR (VStr "s") (VFloat 4607182418800017408) false = Eq.
 Proof. exact pinned_json_refuted. Qed.
 Print Assumptions order_mixed_json_pinned_refuted.
+
+(* ================================================================== ORDER BY FROM THE QUERY TEXT
+   (appended; Model/PipelineS.v, Proofs/PipelineSProofs.v).  The statement is the TEXT; the plan is
+   what the twin of NewOptimizer(q).BuildPlan builds for it (tied to the Go code on every run by
+   C03's text correspondence, harness/c03.go part F).  [ords] are the order fields FinalOrderPlan.Init
+   resolves: for every ORDER BY item the position of the FIRST field of that name, its declared
+   type (taken from the checked field), the DESC flag. *)
+From KV Require Import Model.Value Model.SelectPlans Model.Pipeline Model.PipelineS Proofs.PipelineSProofs.
+From KV Require Model.Storage Model.ScanIO.
+
+(* ORDER BY from the text (no LIMIT on top), row mode: the rows are a permutation of the rows the
+   node under the order node -- ProjectionPlan or AggregatePlan, [ch] -- delivers, i.e. of the rows of
+   the same plan without ORDER BY, and sorted under the requested keys whenever the sort columns are
+   homogeneous *)
+Theorem order_by_text_sorted_permutation :
+  forall (fo : fops) (re : bytes -> bytes -> res bool) (fmt_v : F fo -> string) (ag : aggops fo)
+         (pi pf : bytes -> option Z) (q : string) (d : Storage.store) (pl : splanned fo)
+         (os : list order_field) (ch : shape) (out : list row),
+  plan_stmt_text fo re fmt_v q = STOk pl ->
+  sp_shape fo pl = SOrder os ch ->
+  select_stmt_text fo re fmt_v ag pi pf q d MRow = TOk out ->
+  exists ords rows,
+    init_orders os (SelectPlans.s_names (F fo) (q_stmt fo (sp_q fo pl)))
+                   (SelectPlans.s_types (F fo) (q_stmt fo (sp_q fo pl))) = Some ords /\
+    select_shape_row fo re ag pi pf (sp_q fo pl) ch (scan_slots (sp_scan fo pl) d) = Ok rows /\
+    Permutation out rows /\
+    (homogeneous ords rows = true -> StronglySorted (spec_le ords) out).
+Proof. exact PipelineSProofs.order_by_text_sorted_permutation. Qed.
+Print Assumptions order_by_text_sorted_permutation.
+
+(* ORDER BY ... LIMIT s, n from the text, row mode: rows s .. s+n-1 of a sorted permutation of the
+   rows under the order node *)
+Theorem order_by_limit_text_sorted_slice :
+  forall (fo : fops) (re : bytes -> bytes -> res bool) (fmt_v : F fo -> string) (ag : aggops fo)
+         (pi pf : bytes -> option Z) (q : string) (d : Storage.store) (pl : splanned fo)
+         (os : list order_field) (ch : shape) (s n : nat) (ords : list ofield) (rows : list row),
+  plan_stmt_text fo re fmt_v q = STOk pl ->
+  sp_shape fo pl = SLimit s n (SOrder os ch) ->
+  init_orders os (SelectPlans.s_names (F fo) (q_stmt fo (sp_q fo pl)))
+                 (SelectPlans.s_types (F fo) (q_stmt fo (sp_q fo pl))) = Some ords ->
+  select_shape_row fo re ag pi pf (sp_q fo pl) ch (scan_slots (sp_scan fo pl) d) = Ok rows ->
+  exists sorted,
+    select_stmt_text fo re fmt_v ag pi pf q d MRow = TOk (slice s n sorted) /\
+    Permutation sorted rows /\
+    (homogeneous ords rows = true -> StronglySorted (spec_le ords) sorted).
+Proof. exact PipelineSProofs.order_by_limit_text_sorted_slice. Qed.
+Print Assumptions order_by_limit_text_sorted_slice.
+
+(* `order by key asc` alone over a projection, from the text: the plan is the plan of the statement
+   without ORDER BY (the rows then come in the scan's key order: order_key_asc_keeps_natural_order above) *)
+Theorem order_by_key_asc_text_elided :
+  forall (fo : fops) (re : bytes -> bytes -> res bool) (fmt_v : F fo -> string) (q : string)
+         (pl : splanned fo) (name : string) (p : nat),
+  plan_stmt_text fo re fmt_v q = STOk pl ->
+  is_agg fo pl = false ->
+  SelectPlans.s_order (F fo) (q_stmt fo (sp_q fo pl)) = Some [OrderField name (EField p KeyKW) false] ->
+  sp_shape fo pl = build_final_plan false None (SelectPlans.s_limit (F fo) (q_stmt fo (sp_q fo pl))).
+Proof. exact PipelineSProofs.order_by_key_asc_text_elided. Qed.
+Print Assumptions order_by_key_asc_text_elided.
+(* FULL STATEMENT NOT PROVED HERE (kept as a comment): for `order by key asc` alone the rows are sorted
+   by key.  It needs "the slots of every scan come in strictly ascending key order for a sorted,
+   duplicate-free store" for Model/PipelineS.v scan_slots, which is C01's theorem for select * only. *)
+
+(* non-vacuity: ORDER BY over a duplicate field name (the FIRST n sorts), descending, ties broken
+   by key; the sort columns are homogeneous; the rows under the order node are the projection's *)
+Local Open Scope string_scope.
+Definition ps7_store : Storage.store := [("a", "3"); ("ab", "1"); ("b", "2"); ("c", "1")].
+Definition ps7_q : string := "select key, int(value) as n, strlen(key) as n where key > '' order by n desc, key".
+
+Example order_by_text_nonvacuous :
+  forall (fo : fops) (re : bytes -> bytes -> res bool) (fmt_v : F fo -> string) (ag : aggops fo)
+         (pi pf : bytes -> option Z),
+  exists pl os,
+    plan_stmt_text fo re fmt_v ps7_q = STOk pl /\ sp_shape fo pl = SOrder os SProj /\
+    init_orders os (SelectPlans.s_names (F fo) (q_stmt fo (sp_q fo pl))) (SelectPlans.s_types (F fo) (q_stmt fo (sp_q fo pl)))
+      = Some [OField 1 TNUMBER true; OField 0 TSTR false] /\
+    select_shape_row fo re ag pi pf (sp_q fo pl) SProj (scan_slots (sp_scan fo pl) ps7_store)
+      = Ok [[Order.VBytes "a"; Order.VInt 3; Order.VInt 1]; [Order.VBytes "ab"; Order.VInt 1; Order.VInt 2]; [Order.VBytes "b"; Order.VInt 2; Order.VInt 1]; [Order.VBytes "c"; Order.VInt 1; Order.VInt 1]] /\
+    homogeneous [OField 1 TNUMBER true; OField 0 TSTR false]
+      [[Order.VBytes "a"; Order.VInt 3; Order.VInt 1]; [Order.VBytes "ab"; Order.VInt 1; Order.VInt 2]; [Order.VBytes "b"; Order.VInt 2; Order.VInt 1]; [Order.VBytes "c"; Order.VInt 1; Order.VInt 1]] = true /\
+    select_stmt_text fo re fmt_v ag pi pf ps7_q ps7_store MRow
+      = TOk [[Order.VBytes "a"; Order.VInt 3; Order.VInt 1]; [Order.VBytes "b"; Order.VInt 2; Order.VInt 1]; [Order.VBytes "ab"; Order.VInt 1; Order.VInt 2]; [Order.VBytes "c"; Order.VInt 1; Order.VInt 1]].
+Proof.
+  intros. do 2 eexists. split; [vm_compute; reflexivity|]. split; [vm_compute; reflexivity|].
+  repeat split; vm_compute; reflexivity.
+Qed.
